@@ -24,7 +24,8 @@ func factsC15() {
 	var acc, syn, ns, stub []string
 	for _, m := range r.Methods {
 		acc = append(acc, fmt.Sprintf("(\"%s\"%%string, %s)", m.Name, coqStrList(m.Access)))
-		syn = append(syn, fmt.Sprintf("(\"%s\"%%string, \"%s\"%%string)", m.Name, coqEscape(m.Sync)))
+		k, mu, op := m.SyncParts()
+		syn = append(syn, fmt.Sprintf("(\"%s\"%%string, \"%s\"%%string, \"%s\"%%string, \"%s\"%%string, %v)", m.Name, k, coqEscape(mu), coqEscape(op), m.Writes))
 	}
 	for i, a := range r.AdapterFns {
 		ns = append(ns, fmt.Sprintf("(\"%s\"%%string, %s)", a, coqStrList(r.AdapterTo[i])))
@@ -33,7 +34,7 @@ func factsC15() {
 		stub = append(stub, fmt.Sprintf("(%d%%N, \"%s\"%%string, %d%%nat)", s.Action, s.Impl, s.Calls))
 	}
 	fmt.Fprintf(&out, "Definition f_dir_access : list (string * list string) :=\n  [%s].\n", strings.Join(acc, ";\n   "))
-	fmt.Fprintf(&out, "Definition f_dir_sync : list (string * string) :=\n  [%s].\n", strings.Join(syn, "; "))
+	fmt.Fprintf(&out, "Definition f_dir_sync : list (string * string * string * string * bool) :=\n  [%s].\n", strings.Join(syn, "; "))
 	fmt.Fprintf(&out, "Definition f_dir_adapters : list (string * list string) :=\n  [%s].\n", strings.Join(ns, ";\n   "))
 	fmt.Fprintf(&out, "Definition f_dir_stub : list (N * string * nat) :=\n  [%s].\n", strings.Join(stub, "; "))
 	emitBool("f_dir_all_locked", r.AllLocked)
